@@ -157,8 +157,7 @@ def _relational(arg):
         return dict(n=n, status='undecided', why='outside the subset: %s' % (u if isinstance(u, Unsupported) else 'conflicting normalisations'))
     except z3.Z3Exception as e:
         return dict(n=n, status='undecided', why='z3: %s' % str(e)[:60])
-    if status != 'ok':
-        return dict(n=n, status='undecided', why='path budget')
+    partial = status != 'ok'       # budget / a path outside the subset: the joint paths explored are still compared
     bads = []
     unknown = 0
     for ctx, r in paths:
@@ -199,8 +198,9 @@ def _relational(arg):
         bads.append(dict(input=x, what=what, approx=ctx.approx))
         if len(bads) >= 3:
             break
-    st = 'refuted' if bads else ('undecided' if unknown else 'proved')
-    return dict(n=n, status=st, bads=bads, why='solver unknown on %d joint paths' % unknown, paths=len(paths), secs=round(time.time() - t0, 2))
+    st = 'refuted' if bads else ('undecided' if (unknown or partial) else 'proved')
+    return dict(n=n, status=st, bads=bads, why=('path budget / subset: %s' % status) if partial else 'solver unknown on %d joint paths' % unknown,
+                paths=len(paths), secs=round(time.time() - t0, 2))
 
 
 def native_disagreement(modname, x):
